@@ -60,6 +60,14 @@ theorem valuesEqual_iff_erase (X : Ctx) (hX : X.Coherent) (pf : Nat → Nat) (a 
     valuesEqual X a b = true ↔ erase X a = erase X b :=
   valuesEqual_iff_erase_aux X hX pf a b ha hb
 
+/-- The same statement with the hypotheses in the form the correspondence check evaluates them:
+`wfB` (driver request `(wf v)`) and coherence of the process handles occurring in the two values
+(computed by the harness; an invariant of the handle producers, see `handles_WF`). -/
+theorem valuesEqual_iff_erase_checked (X : Ctx) (hX : X.Coherent) (pf : Nat → Nat) (a b : Val)
+    (ha : wfB X a = true) (hb : wfB X b = true) (pa : ProcOK pf a) (pb : ProcOK pf b) :
+    valuesEqual X a b = true ↔ erase X a = erase X b :=
+  valuesEqual_iff_erase X hX pf a b ((WF_iff_wfB X pf a).2 ⟨ha, pa⟩) ((WF_iff_wfB X pf b).2 ⟨hb, pb⟩)
+
 theorem valuesEqual_refl (X : Ctx) (hX : X.Coherent) (pf : Nat → Nat) (a : Val) (ha : WF X pf a) :
     valuesEqual X a a = true :=
   (valuesEqual_iff_erase X hX pf a a ha ha).2 rfl
